@@ -138,6 +138,23 @@ def build_jobs(tier, seed):
         decls = [('rule', 'start', e)] + [('rule', k, v) for k, v in rules.items()] + ([('ignore', None, RX(' +'))] if ignores else [])
         jobs.append({'id': len(jobs), 'base': base, 'alts': alts, 'inputs': inputs + ([' a b', 'a  b '] if ignores else []),
                      'prep': c04.prep_request(decls)})
+    # hand-picked instances of the documented pairs at their edges: constructor forms nested where `|` would flatten,
+    # bounds with two digits (text order differs from numeric order), bounds of zero
+    longs = ['a' * k for k in (0, 1, 2, 3, 8, 9, 10, 11, 12, 13)]
+    for base, alt in [
+            ('start = ((["a", "b"] | "c") | "a")\n', 'start = Choice(Choice(["a", "b"], "c"), "a")\n'),
+            ('start = [((A | "c") | "a"), /.*/]\nA = "a" >> "b"\n', 'start = [Choice(Choice(A, "c"), "a"), /.*/]\nA = "a" >> "b"\n'),
+            ('start = List("a", min_len=2, max_len=10)\n', 'start = "a"{2,10}\n'),
+            ('start = List("a", min_len=9, max_len=12)\n', 'start = "a"{9,12}\n'),
+            ('start = [List("a", min_len=10, max_len=11), "a"*]\n', 'start = ["a"{10,11}, "a"*]\n'),
+            ('start = [List("a", min_len=0, max_len=0), "a"*]\n', 'start = ["a"{0}, "a"*]\n'),
+            ('start = [List("a", min_len=0, max_len=0), "a"*]\n', 'start = ["a"{0,0}, "a"*]\n'),
+            ('start = [List("a", max_len=0), "a"*]\n', 'start = ["a"{,0}, "a"*]\n'),
+            ('start = [List("a", min_len=0), "b"?]\n', 'start = ["a"{0,}, "b"?]\n'),
+            ('start = Sep("a", ",", allow_trailer=True)\n', 'start = "a" /? ","\n'),
+            ('start = Some("a" | "b")\n', 'start = ("a" | "b")+\n'),
+    ]:
+        jobs.append({'id': len(jobs), 'base': base, 'alts': [(alt, False)], 'inputs': inputs + longs + ['ac', 'abc', 'a,a,', 'c']})
     # grouping of un-parenthesised operators
     for i in range(n // 2):
         flat, grouped = flat_chain(rng)
